@@ -343,14 +343,14 @@ def rule_metarewrite(P) -> RuleResult:
         if call is None:
             raise AnalysisError(f'anchor vanished: {cname}.__call__')
         okc = True
-        for present, stored in ((True, V), (True, Z), (True, None), (False, None)):
+        for present, stored, container_null in ((True, V, False), (True, Z, False), (True, None, False), (False, None, False), (False, None, True)):
             ops = {}
 
-            def callh(e, st, m, _p=present, _s=stored):
+            def callh(e, st, m, _p=present, _s=stored, _cn=container_null):
                 f = unparse(e.func)
                 if isinstance(e.func, ast.Name) and e.func.id in st and isinstance(st[e.func.id], finite.Sym) \
                         and st[e.func.id].name.startswith('OP'):
-                    return {'OP0': finite.Sym('CONTAINER'), 'OP1': finite.Sym('KEY'), 'OP2': D}[st[e.func.id].name]
+                    return {'OP0': None if _cn else finite.Sym('CONTAINER'), 'OP1': finite.Sym('KEY'), 'OP2': D}[st[e.func.id].name]
                 if f.endswith('.get') and isinstance(e.func, ast.Attribute):
                     args = [m.ev(a, st) for a in e.args]
                     if _p:
@@ -372,15 +372,16 @@ def rule_metarewrite(P) -> RuleResult:
                 got = None
             except finite.Return as r:
                 got = r.value
-            want = stored if present else (D if has_default else None)
+            want = None if container_null else stored if present else (D if has_default else None)
             if got != want or (isinstance(got, finite.Sym) and isinstance(want, finite.Sym) and type(got) is not type(want)):
                 okc = False
-                res.fail(ci.fq + '.__call__', f'metarewrite:getitem:{"present" if present else "missing"}:{stored!r}',
-                         f'{cname}: key {"present with value " + ("NULL" if stored is None else "zero/empty/false" if stored is Z else "set") if present else "missing"}'
+                res.fail(ci.fq + '.__call__', f'metarewrite:getitem:{"nocontainer" if container_null else "present" if present else "missing"}:{stored!r}',
+                         f'{cname}: ' + ('the container is NULL (a posting without metadata: the lookup gives NULL, with or without a default)' if container_null else '') +
+                         f'key {"present with value " + ("NULL" if stored is None else "zero/empty/false" if stored is Z else "set") if present else "missing"}'
                          f' -> {got!r}, must be {want!r} (a stored value is returned as it is, even when it is 0, "" or FALSE)', loc(call))
                 break
         if okc:
-            res.ok({'node': cname, 'cases': 4, 'semantics': 'stored value if present else default'})
+            res.ok({'node': cname, 'cases': 5, 'semantics': 'stored value if present else default'})
     # open/close selection from the (open, close) pair; NULL default
     qe = P.module(QE)
     for fname, idx in (('open_date', 0), ('close_date', 1), ('open_meta', 0)):
